@@ -92,7 +92,9 @@ def oracle_transpose_map(res, rng, limit):
     cfg = (cfg[0], cfg[1], 0, cfg[3], cfg[4], cfg[5])
     g = gen.TreeGen(rng, world.STRUCTSEQ_ARITY, max_nodes=12, max_depth=4, max_arity=3, none_p=0.03)
     oo = g.tree()
-    oi = g.tree(kinds=['tuple', 'list', 'dict', 'named'])
+    oi = g.tree(kinds=['tuple', 'list', 'dict', 'named', 'custom', 'custom'])
+    if rng.random() < 0.5:
+        oo = gen.TreeGen(rng, world.STRUCTSEQ_ARITY, max_nodes=8, max_depth=3, max_arity=3, none_p=0.0).tree(kinds=['tuple', 'list', 'dict'])
     with World(cfg) as w:
         kw = w.kw()
         to = realize(oo, rng, {})
